@@ -118,3 +118,24 @@ def gen_sunearth(seed, shard, n):
         rav, dv = C.ecliptical2equatorial(lv, bv2, C.true_obliquity(Epoch(t2)))
         yield {"k": "coarse", "yf": y2, "tf": t2, "inr": 1, "lc": fx(float(lc)), "lv": fx(float(lv)), "tc": fx(float(tc)), "tv": fx(float(tv)),
                "rc": fx(rc), "rv": fx(rv), "rac": fx(float(rac)), "rav": fx(float(rav)), "dc": fx(float(dc)), "dv": fx(float(dv))}
+
+
+def gen_coarse_solstices(years):
+    """the low-accuracy solar formulas on the days around both solstices (where a longitude error is amplified most in right
+    ascension: d(alpha) = d(lambda) / cos(eps)) of every given year, and around both equinoxes"""
+    from pymeeus.Epoch import Epoch
+    from pymeeus.Sun import Sun
+    from pymeeus import Coordinates as C
+    for y in years:
+        for (mo, d0) in ((3, 18), (6, 18), (9, 20), (12, 19)):
+            for d in range(d0, d0 + 7):
+                t2 = Epoch(y, mo, d + 0.3).jde()
+                tc, rc = Sun.true_longitude_coarse(Epoch(t2))
+                lc, rc2 = Sun.apparent_longitude_coarse(Epoch(t2))
+                rac, dc, rc3 = Sun.apparent_rightascension_declination_coarse(Epoch(t2))
+                tv, bv, rv = Sun.geometric_geocentric_position(Epoch(t2))
+                lv, bv2, rv2 = Sun.apparent_geocentric_position(Epoch(t2))
+                rav, dv = C.ecliptical2equatorial(lv, bv2, C.true_obliquity(Epoch(t2)))
+                yield {"k": "coarse", "yf": float(y), "tf": t2, "inr": 1, "lc": fx(float(lc)), "lv": fx(float(lv)), "tc": fx(float(tc)),
+                       "tv": fx(float(tv)), "rc": fx(rc), "rv": fx(rv), "rac": fx(float(rac)), "rav": fx(float(rav)),
+                       "dc": fx(float(dc)), "dv": fx(float(dv))}
